@@ -845,6 +845,7 @@ TABLES = [
 import extract_stun  # STUN message layer additions (tools/extract_stun.py)
 CONSTS += extract_stun.CONSTS
 TABLES += extract_stun.TABLES
+CDEFS += extract_stun.CDEFS
 
 
 def eval_table(file, name):
